@@ -148,17 +148,27 @@ def FileDesc.updInfo (f : FileDesc) (g : TInfo → TInfo) : FileDesc := { f with
 /-- number of packets of one complete transfer -/
 def FileDesc.nPk (f : FileDesc) : Nat := if f.nSym = 0 then 1 else f.nSym
 
-/-- `FileDesc::should_transfer_now` -/
-def shouldTransferNow (f : FileDesc) (prio : Nat) (mode : Mode) (now : Nat) : Bool :=
-  if f.prio != prio then false else
-  if mode == .full && !f.published then false else
-  if (match f.info.startTime with | some st => decide (now < st) | none => false) then false else
-  if f.info.transferring then false else
-  if f.maxCount > f.info.count then true else
+/-- `if let Some(start_time) = info.transfer_start_time { if now < start_time { return false } }` -/
+def beforeStart (f : FileDesc) (now : Nat) : Bool :=
+  match f.info.startTime with
+  | some st => decide (now < st)
+  | none => false
+
+/-- the carousel test at the end of `should_transfer_now` (`last_transfer_interval > interval`) -/
+def gapElapsed (f : FileDesc) (now : Nat) : Bool :=
   match f.carousel, f.info.lastEnd, f.info.lastStart with
   | some (.delay d), some le, some _ => decide (now - le > d)
   | some (.interval d), some _, some ls => decide (now - ls > d)
   | _, _, _ => true
+
+/-- `FileDesc::should_transfer_now` -/
+def shouldTransferNow (f : FileDesc) (prio : Nat) (mode : Mode) (now : Nat) : Bool :=
+  if f.prio != prio then false else
+  if mode == .full && !f.published then false else
+  if beforeStart f now then false else
+  if f.info.transferring then false else
+  if f.maxCount > f.info.count then true else
+  gapElapsed f now
 
 /-- `FileDesc::is_expired` -/
 def isExpired (f : FileDesc) : Bool :=
@@ -282,7 +292,7 @@ def fdtPop (s : State) : State :=
 def fdtStartStep (s : State) (k now : Nat) : State :=
   emit { s with fdts := updF s.fdts k (fun f => transferInit f now 0) } (.fdtStart now k)
 
-/-- tail of `get_next_fdt_transfer` -/
+/-- tail of `Fdt::get_next_fdt_transfer` (its head: `fdtBusy`, `fdtMaybePublish`, `fdtPop`) -/
 def fdtTryStart (s : State) (now : Nat) : State × Option Nat :=
   match s.curFdt with
   | none => (s, none)
@@ -291,10 +301,6 @@ def fdtTryStart (s : State) (now : Nat) : State × Option Nat :=
     | none => (s, none)
     | some f =>
       if shouldTransferNow f 0 s.cfg.mode now then (fdtStartStep s k now, some k) else (s, none)
-
-/-- `Fdt::get_next_fdt_transfer` -/
-def getNextFdt (s : State) (now : Nat) : State × Option Nat :=
-  if fdtBusy s then (s, none) else fdtTryStart (fdtPop (fdtMaybePublish s now)) now
 
 /-- first element of the waiting queue that should transfer now -/
 def findNext (s : State) (prio now : Nat) : List Nat → Option Nat
@@ -380,11 +386,15 @@ def fdtStep (s : State) (c : Cur) (e : Enc) (id now idx : Nat) : State :=
 def fdtRelease (s : State) (k now : Nat) : State :=
   { transferDoneFdt s k now with fdtSess := none }
 
-/-- `get_next` of the FDT session -/
+/-- pop the next queued instance (if any), try to start the current one, create its encoder -/
+def fdtAdvance (s : State) (now : Nat) : State :=
+  match fdtTryStart (fdtPop s) now with
+  | (s', some k) => { s' with fdtSess := some (startFdtCur k) }
+  | (s', none) => s'
+
+/-- `get_next` of the FDT session (`get_next_fdt_transfer` + `BlockEncoder::new`) -/
 def fdtGetNext (s : State) (now : Nat) : State :=
-  match getNextFdt s now with
-  | (s, some k) => { s with fdtSess := some (startFdtCur k) }
-  | (s, none) => s
+  if fdtBusy s then s else fdtAdvance (fdtMaybePublish s now) now
 
 /-- `SenderSession::run` for the FDT session (`transfer_fdt_only = true`) -/
 def runFdt : Nat → State → Nat → State × Out
